@@ -45,6 +45,26 @@ def variant_params(draw, need_h=False, max_res=60):
             "atom_order": draw(st.sampled_from(["native", "native", "native", "reversed", "hydrogens-first", "shuffled"]))}
 
 
+def chain_label(mode, k):
+    """PDB chain identifier of the k-th chain created by a builder: absent (mdtraj's default), one letter shared by all chains
+    (what a PDB file with TER records inside one chain letter gives), distinct letters, or letters that repeat every other chain.
+    The identifier is a label only: chains are told apart by being separate Chain objects."""
+    if mode in (None, "none"):
+        return None
+    if mode == "same":
+        return "A"
+    if mode == "distinct":
+        return "ABCDEFGH"[k % 8]
+    if mode == "alternating":
+        return "AB"[k // 2 % 2]
+    if mode == "first-only":
+        return "A" if k == 0 else None
+    raise ValueError(mode)
+
+
+CHAIN_LABEL_MODES = ["none", "same", "same", "distinct", "alternating", "first-only"]
+
+
 def build(p):
     """-> md.Trajectory (no cell)"""
     import mdtraj as md
@@ -54,7 +74,13 @@ def build(p):
     prot = [r for r in base.topology.residues if r.is_protein][p["start"]:p["start"] + p["nres"]]
     top = md.Topology()
     keep = []
-    chain = top.add_chain()
+    _nch = [0]
+
+    def _add_chain():
+        c = top.add_chain(chain_label(p.get("chain_labels"), _nch[0]))
+        _nch[0] += 1
+        return c
+    chain = _add_chain()
     drop = {(i, nm) for i, nm in (tuple(x) for x in p["drop_atoms"])}
     extras_src = [r for r in base.topology.residues if not r.is_protein][:6] if p["extras"] else []
     rng_order = np.random.Generator(np.random.PCG64(p["rseed"] + 99))
@@ -71,7 +97,7 @@ def build(p):
         return atoms_r
     for k, r in enumerate(prot):
         if k in p["split_at"]:
-            chain = top.add_chain()
+            chain = _add_chain()
         if p["insert_water_at"] == k:
             w = top.add_residue("HOH", chain, resSeq=900)
             top.add_atom("O", elem.oxygen, w)
@@ -85,7 +111,7 @@ def build(p):
             top.add_atom(a.name, a.element, nr)
             keep.append(("old", a.index))
     if extras_src:
-        ch = top.add_chain()
+        ch = _add_chain()
         for r in extras_src:
             nr = top.add_residue(r.name, ch, resSeq=r.resSeq)
             for a in ordered(r):
@@ -190,7 +216,8 @@ def build_designed(p):
     n = p["n"]
     rng = np.random.Generator(np.random.PCG64(p["rseed"]))
     top = md.Topology()
-    ch = top.add_chain()
+    _nch = 0
+    ch = top.add_chain(chain_label(p.get("chain_labels"), _nch))
     missing = set(p["missing"])
     names = ["N", "CA", "C", "O"]
     els = {"N": elem.nitrogen, "CA": elem.carbon, "C": elem.carbon, "O": elem.oxygen}
@@ -198,7 +225,8 @@ def build_designed(p):
     ai = 0
     for r in range(n):
         if r in p["breaks"]:
-            ch = top.add_chain()
+            _nch += 1
+            ch = top.add_chain(chain_label(p.get("chain_labels"), _nch))
         res = top.add_residue("PRO" if r in p["pro"] else "ALA", ch, resSeq=r + 1)
         for nm in names:
             if r in missing and nm == names[r % 4]:
